@@ -4,6 +4,7 @@ import (
 	"encoding/json"
 	"fmt"
 	"sort"
+	"strings"
 
 	"github.com/mit-pdos/go-journal/vrt"
 	"verif/fsx"
@@ -156,7 +157,7 @@ func C06(r *report.Report, tier string) {
 	if tier == "thorough" {
 		depth, bound = 4, 3
 	}
-	r.Rule = fmt.Sprintf("(a) breadth-first search to depth %d over a %d-symbol alphabet of requests whose inodes coincide or are ordered arbitrarily (rename onto . / .., directory into itself, over its own parent, stale handles, cold caches after restart), from a fresh and from an inode-inverted image: a single client must never wait on itself, deadlock or exceed the scheduling-point horizon; (b) in four named states and in every state reached by a few shape-changing operations from a fresh and from an inode-inverted image (children with smaller and larger inode numbers than their parents), each with warm and with cold caches, the lock-acquisition trace of every probe operation is recorded, every pair of operations whose traces acquire two inode locks in opposite orders is a predicted deadlock, and each prediction is confirmed or refuted by exploring all schedules with <=%d deviations of the two operations run concurrently from that state - only a real deadlock schedule is a violation; (c) deadlock/horizon verdicts of the C03 harness schedules", depth, len(c06Alphabet()), bound)
+	r.Rule = fmt.Sprintf("(a) breadth-first search to depth %d over a %d-symbol alphabet of requests whose inodes coincide or are ordered arbitrarily (rename onto . / .., directory into itself, over its own parent, stale handles, cold caches after restart), from a fresh and from an inode-inverted image: a single client must never wait on itself, deadlock or exceed the scheduling-point horizon; (b) in four named states and in every state reached by a few shape-changing operations from a fresh and from an inode-inverted image (children with smaller and larger inode numbers than their parents), each with warm and with cold caches, the lock-acquisition trace of every probe operation is recorded, every pair of operations whose traces acquire two inode locks in opposite orders is a predicted deadlock, and each prediction is confirmed or refuted by exploring all schedules with <=%d deviations of the two operations run concurrently from that state - only a real deadlock schedule is a violation; (c) deadlock/horizon verdicts of all schedules with <=1 deviation of the C03 harnesses that involve renames, inverted inode numbers or background frees (horizon 400000 scheduling points)", depth, len(c06Alphabet()), bound)
 	r.Only = map[string]bool{"C06": true}
 	s1 := RunSeq(r, "c06.seq", depth)
 	s2 := RunSeq(r, "c06.seq.inv", depth-1)
@@ -255,6 +256,19 @@ func C06(r *report.Report, tier string) {
 		if confirmed+refuted <= 6 {
 			r.Sample(map[string]interface{}{"predicted_inversion": h.Name, "executions": s.Execs, "deadlock_found": r.NViolations() > before})
 		}
+	}
+	// (c) the concurrent harnesses on trees with inverted inode numbers and with background frees: deadlock and horizon verdicts
+	for _, h := range concHarnesses() {
+		if !strings.Contains(h.Name, "inverted") && !strings.Contains(h.Name, "big") && !strings.Contains(h.Name, "rename") {
+			continue
+		}
+		if timeUp() {
+			r.Exhaustive = false
+			break
+		}
+		s := ExploreAll(r, "nfs.conc", h, 1, vrt.PUnlock, false)
+		r.Distinct("harness|" + h.Name)
+		r.Sample(map[string]interface{}{"harness": h.Name, "executions": s.Execs})
 	}
 	r.Add("predictions_confirmed", int64(confirmed))
 	r.Add("predictions_refuted", int64(refuted))
